@@ -15,6 +15,18 @@ def write(mod, ctx, tier, seed, wall, violations, extra_cov=None):
     cov.update(ctx.extra)
     if extra_cov:
         cov.update(extra_cov)
+    # schema: 'exhaustive' is a boolean and means that the run enumerated a finite space completely;
+    # a check that enumerates only a part completely (and explores the rest) says so under another key
+    ex = cov.get('exhaustive')
+    if ex is not None and not isinstance(ex, bool):
+        if isinstance(ex, (int, float)):
+            cov['exhaustive'] = bool(ex)
+        else:
+            cov['exhaustively_enumerated_part'] = cov.pop('exhaustive')
+    for k in ('evaluations', 'distinct_nontrivial', 'states', 'transitions', 'obligations', 'discharged',
+              'programs', 'disagreements_checked', 'traces_validated_against_impl'):
+        if k in cov and not (isinstance(cov[k], int) and not isinstance(cov[k], bool) and cov[k] >= 0):
+            cov[k + '_detail'] = cov.pop(k)
     ev = {
         'property_id': mod.ID, 'tier': tier, 'seed': seed,
         'level': getattr(mod, 'LEVEL', 'exploration'),
